@@ -2578,21 +2578,45 @@ namespace bloch::runtime {
                     m_lastMeasurement[q.qubit] = bit;
             }
         } else if (auto destroy = dynamic_cast<DestroyStatement*>(s)) {
+            // 'destroy x' gives up the reference x holds: afterwards x is a null reference of its
+            // class (comparable with null, "null reference" when used), not an untyped empty value
+            auto nullOfSlot = [](const Value& slot) {
+                Value n;
+                if (slot.type == Value::Type::Object) {
+                    n.type = Value::Type::Object;
+                    n.className = slot.className;
+                }
+                return n;
+            };
             if (auto var = dynamic_cast<VariableExpression*>(destroy->target.get())) {
-                assign(var->name, {}, destroy->line, destroy->column);
+                assign(var->name, nullOfSlot(lookup(var->name)), destroy->line, destroy->column);
                 requestGc();
             } else if (auto mem = dynamic_cast<MemberAccessExpression*>(destroy->target.get())) {
                 Value obj = eval(mem->object.get());
-                if (obj.type == Value::Type::Object && obj.objectValue) {
-                    RuntimeField* field = obj.objectValue->cls
-                                              ? findInstanceField(obj.objectValue->cls, mem->member)
-                                              : nullptr;
-                    if (field) {
-                        if (field->offset < obj.objectValue->fields.size()) {
-                            rejectQubitOverwrite(obj.objectValue->fields[field->offset],
-                                                 destroy->line, destroy->column);
-                            obj.objectValue->fields[field->offset] = {};
-                        }
+                RuntimeClass* cls = nullptr;
+                if (obj.type == Value::Type::Object && obj.objectValue)
+                    cls = obj.objectValue->cls;
+                else if (obj.type == Value::Type::ClassRef)
+                    cls = obj.classRef;
+                RuntimeField* field = (obj.type == Value::Type::Object && cls)
+                                          ? findInstanceField(cls, mem->member)
+                                          : nullptr;
+                if (field) {
+                    if (field->offset < obj.objectValue->fields.size()) {
+                        Value& slot = obj.objectValue->fields[field->offset];
+                        rejectQubitOverwrite(slot, destroy->line, destroy->column);
+                        Value dropped = std::move(slot);
+                        slot = nullOfSlot(dropped);
+                    }
+                    requestGc();
+                } else if (cls) {
+                    // a static field, named through its class or through an instance
+                    auto [staticField, owner] = findStaticFieldWithOwner(cls, mem->member);
+                    if (staticField && owner && staticField->offset < owner->staticStorage.size()) {
+                        Value& slot = owner->staticStorage[staticField->offset];
+                        rejectQubitOverwrite(slot, destroy->line, destroy->column);
+                        Value dropped = std::move(slot);
+                        slot = nullOfSlot(dropped);
                         requestGc();
                     }
                 }
